@@ -50,6 +50,11 @@ def _clone(node):
 def _simple_expr(e):
     if isinstance(e, (ast.Name, ast.Constant)):
         return True
+    if isinstance(e, ast.UnaryOp) and isinstance(e.op, (ast.USub, ast.UAdd)) and isinstance(e.operand, ast.Constant):
+        return True
+    if isinstance(e, ast.Call) and isinstance(e.func, ast.Name) and e.func.id == 'len' and len(e.args) == 1 and not e.keywords and \
+            _simple_expr(e.args[0]):
+        return True
     if isinstance(e, ast.Attribute):
         return _simple_expr(e.value)
     return False
@@ -204,10 +209,20 @@ def expand_context_manager_classes(tree):
     return sorted(specs)
 
 
-def _gen_cm_spec(fdef, is_method):
+def _cm_aliases(tree):
+    out = {'contextmanager'}
+    for n in tree.body:
+        if isinstance(n, ast.ImportFrom) and n.module == 'contextlib':
+            for a in n.names:
+                if a.name == 'contextmanager':
+                    out.add(a.asname or a.name)
+    return out
+
+
+def _gen_cm_spec(fdef, is_method, aliases=('contextmanager',)):
     """a @contextmanager function of the shape  pre ; yield [value] ; post   or   pre ; try: yield [value] finally: post
     with straight-line pre/post -> dict, else None"""
-    if not any(ast.unparse(d).split('.')[-1] == 'contextmanager' for d in fdef.decorator_list) or len(fdef.decorator_list) != 1:
+    if not any(ast.unparse(d).split('.')[-1] in aliases for d in fdef.decorator_list) or len(fdef.decorator_list) != 1:
         return None
     a = fdef.args
     if a.vararg or a.kwarg or a.kwonlyargs or a.defaults:
@@ -252,15 +267,16 @@ def expand_generator_context_managers(tree):
     generator has one); the function is dropped when no other mention of it is left.  -> names expanded"""
     import copy
     specs = {}          # (class name | None, function name) -> spec
+    aliases = _cm_aliases(tree)
     for st in tree.body:
         if isinstance(st, ast.FunctionDef):
-            sp = _gen_cm_spec(st, False)
+            sp = _gen_cm_spec(st, False, aliases)
             if sp:
                 specs[(None, st.name)] = sp
         elif isinstance(st, ast.ClassDef):
             for m in st.body:
                 if isinstance(m, ast.FunctionDef):
-                    sp = _gen_cm_spec(m, True)
+                    sp = _gen_cm_spec(m, True, aliases)
                     if sp:
                         specs[(st.name, m.name)] = sp
     if not specs:
@@ -432,7 +448,11 @@ class FuncInfo:
 
     @property
     def is_contextmanager(self):
-        return any(d.split('.')[-1] == 'contextmanager' for d in self.decorators)
+        for d in self.decorators:
+            last = d.split('.')[-1]
+            if last == 'contextmanager' or self.module.imports.get(last, '').endswith(':contextmanager'):
+                return True
+        return False
 
     def loc(self, node=None):
         node = node or self.node
@@ -748,6 +768,21 @@ class Repo:
 
     def subclasses(self, base, strict=False):
         return [c for c in self.all_classes() if base in self.mro(c) and (not strict or c is not base)]
+
+    def instantiated(self):
+        """classes of the repository that are constructed somewhere in it (a call of the class name)"""
+        if getattr(self, '_instantiated', None) is None:
+            out = set()
+            for mn, m in self.modules.items():
+                if mn in GENERATED_MODULES:
+                    continue
+                for n in ast.walk(m.tree):
+                    if isinstance(n, ast.Call) and isinstance(n.func, ast.Name):
+                        r = self.module_binding(m, n.func.id)
+                        if r and r[0] == 'class':
+                            out.add(r[1])
+            self._instantiated = out
+        return self._instantiated
 
     def lookup_method(self, ci, name):
         for c in self.mro(ci):
